@@ -93,6 +93,11 @@ type b2i struct {
 	monos map[int]*Term // monomial atoms created
 	aiv   map[int][2]*big.Int // atom intervals
 	bcache map[int]*Term
+	known  map[int][2]*big.Int // intervals of particular linear forms (residues)
+	rhos   map[string]*Term
+	abstractMonos bool
+	factors map[int][]*Term
+	defs   []*Term
 }
 
 type liftRes struct {
@@ -140,6 +145,11 @@ func (x *b2i) atomIv(a *Term) (lo, hi *big.Int) {
 
 // interval of a linear form from atom intervals (may be loose); ok=false if an atom has no interval
 func (x *b2i) linIv(l *lin) (*big.Int, *big.Int, bool) {
+	if len(x.known) > 0 && !l.isConst() {
+		if iv, ok := x.known[x.term(l).ID]; ok {
+			return iv[0], iv[1], true
+		}
+	}
 	lo, hi := new(big.Int).Set(l.c), new(big.Int).Set(l.c)
 	for _, t := range l.terms {
 		alo, ahi := x.atomIv(t.atom)
@@ -185,7 +195,10 @@ func (x *b2i) mulLin(a, b *lin) *lin {
 	return r
 }
 
-func monoFactors(a *Term) []*Term {
+func (x *b2i) monoFactors(a *Term) []*Term {
+	if fs, ok := x.factors[a.ID]; ok {
+		return fs
+	}
 	if a.Op == OIMul {
 		return a.Args
 	}
@@ -193,9 +206,15 @@ func monoFactors(a *Term) []*Term {
 }
 
 func (x *b2i) monomial(a, b *Term) *Term {
-	fs := append(append([]*Term{}, monoFactors(a)...), monoFactors(b)...)
+	fs := append(append([]*Term{}, x.monoFactors(a)...), x.monoFactors(b)...)
 	sort.Slice(fs, func(i, j int) bool { return fs[i].ID < fs[j].ID })
 	m := x.st.mk(OIMul, IntSort, fs, nil, "", 0, 0)
+	if x.abstractMonos {
+		// product atom: the monomial is an opaque integer (over-approximation, sound for unsat)
+		real := m
+		m = x.st.Sym(fmt.Sprintf("mono!%d", real.ID), IntSort)
+		x.factors[m.ID] = fs
+	}
 	if _, ok := x.monos[m.ID]; !ok {
 		x.monos[m.ID] = m
 		alo, ahi := x.atomIv(a)
@@ -474,8 +493,64 @@ func (x *b2i) lift(t *Term) *liftRes {
 		r = &liftRes{e: e, lo: minB(a.lo, b.lo), hi: maxB(a.hi, b.hi), tz: minInt(a.tz, b.tz)}
 	case OBVLshr, OBVShl, OBVAshr:
 		return x.fail("shift by a symbolic amount")
-	case OBVXor, OBVNot:
-		return x.fail("bitwise xor/not of symbolic operands")
+	case OBVXor:
+		// xor with a constant of few set bits: x ^ 2^k = x + 2^k - 2^(k+1) * bit_k(x)
+		{
+			a0, a1 := t.Args[0], t.Args[1]
+			if a0.IsConst() {
+				a0, a1 = a1, a0
+			}
+			if a1.IsConst() && !a0.IsConst() {
+				nb := 0
+				for k := 0; k < w; k++ {
+					if a1.Val.Bit(k) == 1 {
+						nb++
+					}
+				}
+				if nb <= 8 {
+					a := x.lift(a0)
+					e := a.e
+					for k := 0; k < w; k++ {
+						if a1.Val.Bit(k) == 1 {
+							bit := x.quo(a.e, pow2(k)).sub(x.quo(a.e, pow2(k+1)).scale(big.NewInt(2)))
+							e = e.add(linConst(pow2(k))).sub(bit.scale(pow2(k + 1)))
+						}
+					}
+					r = &liftRes{e: e, lo: big.NewInt(0), hi: mask(w)}
+					break
+				}
+			}
+		}
+		a, b := x.lift(t.Args[0]), x.lift(t.Args[1])
+		switch {
+		case a.hi.Sign() == 0:
+			r = b
+		case b.hi.Sign() == 0:
+			r = a
+		case a.tz > 0 && b.hi.Cmp(pow2(a.tz)) < 0 && b.lo.Sign() >= 0:
+			r = &liftRes{e: a.e.add(b.e), lo: new(big.Int).Add(a.lo, b.lo), hi: new(big.Int).Add(a.hi, b.hi), tz: b.tz}
+		case b.tz > 0 && a.hi.Cmp(pow2(b.tz)) < 0 && a.lo.Sign() >= 0:
+			r = &liftRes{e: a.e.add(b.e), lo: new(big.Int).Add(a.lo, b.lo), hi: new(big.Int).Add(a.hi, b.hi), tz: a.tz}
+		default:
+			return x.fail("bitwise xor of operands not known to be bit-disjoint")
+		}
+	case OInt2BV:
+		// unsigned value of int2bv(z) = z mod 2^w
+		a := x.liftInt(t.Args[0])
+		m := pow2(w)
+		lo, hi, ok := x.linIv(a)
+		if ok && lo.Sign() >= 0 && hi.Cmp(m) < 0 {
+			r = &liftRes{e: a, lo: lo, hi: hi}
+			if !a.isConst() {
+				tt := x.term(a)
+				x.addSide(x.st.And(x.st.ILe(x.st.Inti(0), tt), x.st.ILt(tt, x.st.IntConst(m))))
+			}
+		} else {
+			q := x.quo(a, m)
+			r = &liftRes{e: a.sub(q.scale(m)), lo: big.NewInt(0), hi: new(big.Int).Sub(m, bigOne)}
+		}
+	case OBVNot:
+		return x.fail("bitwise not of a symbolic operand")
 	case OBVUDiv, OBVURem:
 		a := x.lift(t.Args[0])
 		if !t.Args[1].IsConst() || t.Args[1].Val.Sign() == 0 {
@@ -604,12 +679,15 @@ func (x *b2i) liftInt(t *Term) *lin {
 			break
 		}
 		a := x.liftInt(t.Args[0])
-		q := x.quo(a, t.Args[1].Val)
+		m := t.Args[1].Val
 		if t.Op == OIDiv {
-			r = q
-		} else {
-			r = a.sub(q.scale(t.Args[1].Val))
+			r = x.quo(a, m)
+			break
 		}
+		if len(x.st.invPairs) > 0 && x.st.invModulus != nil && m.Cmp(x.st.invModulus) == 0 {
+			a = x.reduceInverses(a)
+		}
+		r = x.residue(a, m)
 	default:
 		x.fail("integer operator not supported by the lifting")
 		r = linConst(new(big.Int))
@@ -619,9 +697,9 @@ func (x *b2i) liftInt(t *Term) *lin {
 }
 
 // liftToInt returns Int-only versions of hyps/goal plus the conjunction of no-wrap side conditions.
-func (st *Store) liftToInt(hyps []*Term, goal *Term) (nh []*Term, ng *Term, side *Term, ok bool, why string) {
+func (st *Store) liftToInt(hyps []*Term, goal *Term, abstractMonos bool) (nh []*Term, ng *Term, side *Term, ok bool, why string) {
 	x := &b2i{st: st, ub: map[*Term]*big.Int{}, cache: map[int]*liftRes{}, vars: map[*Term]*Term{}, ok: true,
-		sideK: map[int]bool{}, monos: map[int]*Term{}, aiv: map[int][2]*big.Int{}, bcache: map[int]*Term{}}
+		sideK: map[int]bool{}, monos: map[int]*Term{}, aiv: map[int][2]*big.Int{}, bcache: map[int]*Term{}, known: map[int][2]*big.Int{}, rhos: map[string]*Term{}, factors: map[int][]*Term{}, abstractMonos: abstractMonos}
 	x.collectBounds(hyps)
 	for _, h := range hyps {
 		nh = append(nh, x.liftBool(h))
@@ -655,7 +733,7 @@ func (st *Store) liftToInt(hyps []*Term, goal *Term) (nh []*Term, ng *Term, side
 		m := x.monos[id]
 		if iv, ok := x.aiv[id]; ok {
 			allVars := true
-			for _, f := range m.Args {
+			for _, f := range x.monoFactors(m) {
 				if f.Op != OSym {
 					allVars = false
 				}
@@ -665,6 +743,110 @@ func (st *Store) liftToInt(hyps []*Term, goal *Term) (nh []*Term, ng *Term, side
 			}
 		}
 	}
+	nh = append(nh, x.defs...)
 	side = st.And(x.side...)
 	return nh, ng, side, true, ""
+}
+
+// reduceInverses rewrites monomials modulo declared inverse pairs (z*w == 1 mod invModulus).  Only used for the
+// argument of "mod invModulus", where congruent arguments give the same residue.
+func (x *b2i) reduceInverses(l *lin) *lin {
+	out := linConst(l.c)
+	for _, t := range l.terms {
+		fs := append([]*Term{}, x.monoFactors(t.atom)...)
+		changed := true
+		for changed {
+			changed = false
+			for _, pr := range x.st.invPairs {
+				zi, wi := -1, -1
+				for i, f := range fs {
+					if f == pr[0] && zi < 0 {
+						zi = i
+					} else if f == pr[1] && wi < 0 {
+						wi = i
+					}
+				}
+				if zi >= 0 && wi >= 0 {
+					var nf []*Term
+					for i, f := range fs {
+						if i != zi && i != wi {
+							nf = append(nf, f)
+						}
+					}
+					fs = nf
+					changed = true
+				}
+			}
+		}
+		if len(fs) == len(x.monoFactors(t.atom)) {
+			out = out.addScaled(linAtom(t.atom), t.k)
+			continue
+		}
+		switch len(fs) {
+		case 0:
+			out.c.Add(out.c, t.k)
+		case 1:
+			out = out.addScaled(linAtom(fs[0]), t.k)
+		default:
+			m := fs[0]
+			for _, f := range fs[1:] {
+				m = x.monomial(m, f)
+			}
+			out = out.addScaled(linAtom(m), t.k)
+		}
+	}
+	return out
+}
+
+// residue returns l mod m (m > 0 constant).  Coefficients are first reduced modulo m (multiples of m do not
+// change the residue); a remaining non-constant form gets a defining variable rho with rem = m*kappa + rho,
+// 0 <= rho < m, so that every later use (byte slices, comparisons) refers to one small atom.
+func (x *b2i) residue(l *lin, m *big.Int) *lin {
+	rem := linConst(new(big.Int).Mod(l.c, m))
+	for id, t := range l.terms {
+		k := new(big.Int).Mod(t.k, m)
+		if k.Sign() != 0 {
+			rem.terms[id] = &linTerm{k: k, atom: t.atom}
+		}
+	}
+	if rem.isConst() {
+		return rem
+	}
+	if lo, hi, ok := x.linIv(rem); ok && lo.Sign() >= 0 && hi.Cmp(m) < 0 {
+		x.addSide(x.st.And(x.st.ILe(x.st.Inti(0), x.term(rem)), x.st.ILt(x.term(rem), x.st.IntConst(m))))
+		return rem
+	}
+	// canonical sign: l and -l share one defining variable (rho(-l) = 0 if rho(l) = 0 else m - rho(l)), so that
+	// negation mod m is exact without any arithmetic reasoning by the solver
+	if ts := rem.sorted(); len(ts) > 0 && rem.c.Sign() == 0 && new(big.Int).Lsh(ts[0].k, 1).Cmp(m) > 0 {
+		neg := linConst(new(big.Int))
+		for id, t := range rem.terms {
+			neg.terms[id] = &linTerm{k: new(big.Int).Sub(m, t.k), atom: t.atom}
+		}
+		rn := x.residue(neg, m)
+		if rn.isConst() {
+			if rn.c.Sign() == 0 {
+				return rn
+			}
+			return linConst(new(big.Int).Sub(m, rn.c))
+		}
+		rnT := x.term(rn)
+		at := x.st.Ite(x.st.Eq(rnT, x.st.Inti(0)), x.st.Inti(0), x.st.ISub(x.st.IntConst(m), rnT))
+		x.aiv[at.ID] = [2]*big.Int{big.NewInt(0), new(big.Int).Sub(m, bigOne)}
+		return linAtom(at)
+	}
+	rt := x.term(rem)
+	key := fmt.Sprintf("%d mod %s", rt.ID, m.Text(16))
+	if rho, ok := x.rhos[key]; ok {
+		return linAtom(rho)
+	}
+	n := len(x.rhos) + 1
+	rho := x.st.Sym(fmt.Sprintf("rho!%d", n), IntSort)
+	kap := x.st.Sym(fmt.Sprintf("kappa!%d", n), IntSort)
+	x.rhos[key] = rho
+	x.aiv[rho.ID] = [2]*big.Int{big.NewInt(0), new(big.Int).Sub(m, bigOne)}
+	st := x.st
+	def := st.Eq(rt, st.mk(OIAdd, IntSort, []*Term{st.mk(OIMul, IntSort, []*Term{st.IntConst(m), kap}, nil, "", 0, 0), rho}, nil, "", 0, 0))
+	x.defs = append(x.defs, def, st.ILe(st.Inti(0), rho), st.ILe(rho, st.IntConst(new(big.Int).Sub(m, bigOne))))
+	return linAtom(rho)
 }
